@@ -31,7 +31,9 @@ ASSUMPTIONS = [
     "hash seed, in-process history and loader reuse are varied; operating "
     "system, locale and C++ standard library are not",
     "the pickled stub is serialize_ast.PrepareForExport + "
-    "pickle_utils.Serialize, compared by SHA-256",
+    "pickle_utils.Serialize, compared by SHA-256; the compressed forms "
+    "(SerializeAndSave(compress=True), Loader.save_to_pickle) are written "
+    "under a per-worker frozen time.time() value",
 ]
 
 def NSHARDS(tier):
@@ -49,6 +51,14 @@ ERR_SNIPPETS = [
     "class _Sl:\n  __slots__ = ('zeta', 'alpha', 'mid')\n  def __init__(self):\n    self.zeta = 1\n    self.alpha = 's'\n    self.mid = None",
     "_dd = {'zeta': 1, 'alpha': 's', 'mid': None, 'beta': 2.5}\n_ss = {'zeta', 'alpha', 1, 2.5, None}",
     "def _many(q):\n  if q == 1: return 1\n  if q == 2: return 's'\n  if q == 3: return 2.5\n  if q == 4: return b'b'\n  if q == 5: return None\n  return [q]",
+    # several bindings pasted at one node, one error per binding on one line
+    "def _wide(a, b, c, d):\n  x = 1 if a else ('s' if b else (None if c else (2.5 if d else b'b')))\n  y = x\n  return y.nonsense",
+    "_wa = [1, 's', None, 2.5, b'b', (1,), [1], {1}][0]\n_wb = _wa\n_wb.nonsense",
+    # two different errors on one line of a body analysed for several calls
+    "def _two(x):\n  return x.foo + x.bar\n_two(1)\n_two('s')\n_two(None)\n_two(2.5)",
+    "def _two2(x, y):\n  return (x.foo, y.bar, x.baz)\n_two2(1, 's')\n_two2('s', 1)\n_two2(None, 2.5)",
+    "def _dup(x, y):\n  return x.foo + x.bar\n_rd = [_dup(1, 'a'), _dup(1, 2.0)]\n_dup(1, None)\n_dup(1, [1])",
+    "def _chain(c):\n  if c == 0:\n    x = 1\n  elif c == 1:\n    x = 's'\n  elif c == 2:\n    x = 2.0\n  elif c == 3:\n    x = b'b'\n  elif c == 4:\n    x = [1]\n  elif c == 5:\n    x = (1,)\n  elif c == 6:\n    x = {1}\n  else:\n    x = None\n  y = x\n  return y.attr0",
     "(1).nonsense", "_u = 1 + 's'", "len()", "undefined_zz",
                 "_t = ((1).aa, (2).bb)", "_v = ((1).aa, len())",
                 "def _br() -> int:\n  return 's'", "_am: int = 's'",
@@ -57,6 +67,12 @@ ERR_SNIPPETS = [
 
 def run_worker(job, hashseed, timeout=600):
   env = dict(os.environ, PYTHONHASHSEED=str(hashseed))
+  scratch = os.path.join(boot.VERIF, ".run", "C04", "scratch")
+  os.makedirs(scratch, exist_ok=True)
+  run_worker.count = getattr(run_worker, "count", 0) + 1
+  # every worker gets its own frozen wall-clock value
+  job = dict(job, scratch=scratch,
+             clock=1.7e9 + 1000.0 * hashseed + 61.0 * run_worker.count)
   p = subprocess.run([sys.executable, WORKER], input=json.dumps(job),
                      capture_output=True, text=True, env=env, timeout=timeout)
   line = [l for l in p.stdout.splitlines() if l.startswith("RESULT ")]
@@ -134,6 +150,18 @@ def check_batch(ctx, programs, perm_seed):
                 "pickled-stub-differs:" + cname.split("/")[0],
                 "%s: pickled stub bytes differ (%s vs %s)" % (
                     cname, a["pickle"][:12], b["pickle"][:12]), case)
+      ctx.check(a.get("gz") == b.get("gz"),
+                "compressed-pickled-stub-differs:" + cname.split("/")[0],
+                "%s: SerializeAndSave(compress=True) bytes differ (%s vs %s); "
+                "hash seed, history and the frozen clock value differ between "
+                "the two runs" % (cname, str(a.get("gz"))[:12],
+                                  str(b.get("gz"))[:12]), case)
+      if a.get("bundle") and b.get("bundle"):
+        # same first program, same loader history: the module bundle written
+        # by Loader.save_to_pickle must be the same bytes
+        ctx.check(a["bundle"] == b["bundle"],
+                  "loader-bundle-differs:" + cname.split("/")[0],
+                  "%s: save_to_pickle bytes differ" % cname, case)
 
 
 def first_diff(a, b):
@@ -165,8 +193,23 @@ def batch_strategy(nprogs):
   return batches()
 
 
+def fixed_batch(shard):
+  """Every error snippet in a deterministic batch: four programs holding a
+  rotation of the snippet list each, so that every shard analyses every
+  snippet next to different neighbours."""
+  k = len(ERR_SNIPPETS)
+  rot = ERR_SNIPPETS[shard % k:] + ERR_SNIPPETS[:shard % k]
+  progs = []
+  for i in range(4):
+    part = rot[i::4]
+    progs.append("from typing import Optional, Union\nx0 = 1\n" +
+                 "\n".join(part) + "\ny0 = 's'\n")
+  return progs
+
+
 def run_shard(ctx):
   boot.ensure()
+  check_batch(ctx, fixed_batch(ctx.shard), 1000 + ctx.shard)
   # (Hypothesis' very first example is the all-minimal one, so never 1)
   n = 2 if ctx.quick() else 12
   hyp_run(ctx, batch_strategy(4 if ctx.quick() else 14),
